@@ -253,8 +253,8 @@ PROPS = {
         "imports": ["Lib.Bytes", "Codec.Desc", "Conn.Types", "Conn.Prog", "Conn.Sem1", "Run.CaseConn"],
         "case_type": "conn_case",
         "family_types": {"WCAP": WCAP_FT},
-        "checkers": {"BASE": "check_c07", "C07": "check_c07", "C03": "check_c07", "C10": "check_c07"},
-        "harness": [{"bin": "conn", "env": {"VERIF_FAMILIES": "BASE,C07,C03,C10,WCAP"}}],
+        "checkers": {"BASE": "check_c07", "C07": "check_c07", "C03": "check_c07", "C10": "check_c07", "CAN": "check_c07", "SEG": "check_c07"},
+        "harness": [{"bin": "conn", "env": {"VERIF_FAMILIES": "BASE,C07,C03,C10,CAN,SEG,WCAP"}}],
         "shard": 40,
         "quick_scale": 1, "thorough_scale": 8, "search_factor": 4,
         "ties": ["conn binary: real Connection::listen on a scripted transport/client/adapters in a paused runtime vs Conn.Sem1.run1 (sends, calls, outcome, virtual ms)",
@@ -403,7 +403,7 @@ for _p in ("C01", "C02", "C03", "C04", "C06", "C07", "C08", "C10"):
 for _p in ("C01", "C02", "C03", "C04", "C06", "C07", "C08", "C10"):
     PROPS[_p]["max_skipped"] = 0      # no conn case may fall outside the model (e.g. because a packet impl became unparsable)
 for _p in ("C01", "C02", "C03", "C06", "C07"):
-    PROPS[_p]["ignore_families"] = ["C10P"]   # pair cases of the C10 family are judged by C10's own checker only
+    PROPS[_p]["ignore_families"] = ["C10P", "SEGP"]   # pair cases (C10 histories, SEG segmentation pairs) are judged by C10's / C08's own checker only
 for _p in ("C02", "C10"):
     PROPS[_p]["skeleton"].append("passage-protocol/src/cookie.rs")
 PROPS["C05"]["skeleton"] = ["passage-protocol/src/crypto/stream.rs", "passage-protocol/src/connection.rs::apply_encryption", "passage-protocol/src/connection.rs::listen"]
